@@ -114,6 +114,51 @@ CLAIMED = {
         "LGraph!Autos / Orbits on directed labelled graphs; plus rings of identical reactions and random networks up to 6 species / 5 reactions.",
    ref="DESIGN.md §3 C18",
    technique="TLA+ definition of the network views and digraph automorphisms + TLC-enumerated networks replayed into the code + TLC judging recorded results"),
+ "C03": dict(
+   text="Rule.tla defines rule application on ITS graphs (Apply at a match, hydrogen folding, the graph of changed bonds, conservation). Textbook templates "
+        "(19 vendored, implicit- and explicit-H) on several substrates and corpus-derived templates (centre or full ITS) on own and foreign corpus substrates, "
+        "forward/backward, strategies all/comp/bt, implicit-H and explicit-H modes: every graph of SynReactor.its_list that is returned as a reaction is judged "
+        "by TLC: substrate side unchanged (after folding), elements/hydrogens/charge conserved for balanced centres and always equal to the rule's own change, "
+        "changed-bond graph isomorphic to the rule's, and (implicit mode) node-for-node equality with Rule!Apply at the logged match.",
+   ref="DESIGN.md §3 C03",
+   technique="TLA+ theory of rule application + TLC judging recorded SynReactor results (preconditions decided by the spec)"),
+ "C04": dict(
+   text="For textbook and corpus reactions and their renumberings / re-rootings / fragment shuffles, the own template (centre and full ITS) is applied forward to "
+        "the unmapped reactants and backward to the unmapped products under all/comp/bt in the mode paired with the reaction's hydrogen writing; TLC decides "
+        "the preconditions from the reaction's ITS (balanced, centre hydrogens consistent, no spectator explicit hydrogen, changes inside the centre for centre "
+        "templates) and requires the reaction among the results; a failure is attributed to the known pruning finding only if every raw match regenerates it.",
+   ref="DESIGN.md §3 C04",
+   technique="TLA+ preconditions and judgement by TLC over recorded SynReactor outputs; raw-match replay for diagnosis"),
+ "C05": dict(
+   text="Each (template, substrate) pair (textbook and corpus, own and foreign, centre/full, forward/backward) is written in several ways (template atom maps "
+        "permuted and re-rooted, substrate SMILES re-rooted and fragment-shuffled, repeated call); for every writing the distinct reactions under all/comp/bt and the "
+        "reactions obtained by applying the rule at every raw match are recorded; TLC checks equality of the sets across writings, comp within all, bt = comp when "
+        "non-empty, and the same for the raw sets. Differences that exist only in the pruned sets are the recorded known finding.",
+   ref="DESIGN.md §3 C05",
+   technique="TLC judging recorded result sets of metamorphic variants; raw-match replay separates the known pruning finding"),
+ "C09": dict(
+   text="Corpus and textbook reactions: CanonRSMI (wl, nauty) output is verified by TLC to be atom-map equivalent to the input (ITS!FoldEq through a VF2-proposed "
+        "renaming), to keep the unmapped sides, to be a fixed point and - when 3 rounds of colour refinement separate all reactant atoms - to be identical for "
+        "renumbered/re-rooted writings; Standardize.fit idempotent and identical across writings; AAMValidator.smiles_check (RC and ITS) compared with LGraph!IsIso "
+        "computed by TLC on the two centres for renumbered mappings and for mappings with two centre atoms transposed; rsmi_balance_check compared with the element "
+        "bag (with hydrogens) and charge computed by TLC, on balanced reactions and variants with a fragment deleted/duplicated or a charge changed.",
+   ref="DESIGN.md §3 C09",
+   technique="TLA+ theory (ITS folding, isomorphism, element bags) + TLC judging recorded outputs of the real code"),
+ "C10": dict(
+   text="300+ molecules (vendored diverse list and all corpus fragments): smiles_to_graph and graph_to_smi are compared atom by atom with RDKit's own reading "
+        "(aligned by atom maps), h_to_explicit / h_to_implicit are judged with ITS!FoldEq, TotalH and exact restoration; for corpus reactions and renumberings the GML "
+        "text of ten export routes (smart_to_gml / its_to_gml, full ITS or centre supplied, core/full, reindex on/off) is parsed by an independent reader and "
+        "compared by TLC with the rule defined from the reaction's ITS (C10Cases!CoreRule / FullRule: equality when ids are kept, isomorphism when re-indexed), "
+        "and gml_to_its(its_to_gml(centre)) must give the same rule.",
+   ref="DESIGN.md §3 C10",
+   technique="TLA+ definition of the rule of a reaction + TLC judging recorded conversions (RDKit and a GML reader as projections)"),
+ "C14": dict(
+   text="Batch.tla models the per-process result cache with an explicit allocator (addresses are freed and re-used); TLC proves ResultIsPure when the cache pins "
+        "its keys and must find the stale-hit counterexample for a cache keyed by the bare address. Conformance: BatchReactor.fit on batches of 150 (thorough 400) "
+        "entries repeating a few look-alike substrates, cache on/off, cache sizes 1-3, 1-8 worker processes, is compared per entry by TLC with SynReactor on "
+        "that entry alone; AAMValidator.validate_smiles and dicts_balance_check with 1 vs 4 jobs and SynCRN expansion serial vs parallel must agree.",
+   ref="DESIGN.md §3 C14",
+   technique="TLA+ state machine of cache + allocator model-checked by TLC; TLC judging recorded batch runs against solo runs"),
 }
 
 NOT_YET = "check not built yet (work in progress; planned with the same TLA+/TLC technique, see DESIGN.md §3)"
